@@ -232,8 +232,11 @@ def cover_problem(p, added_costs):
         return f"get_num_variables {p.get_num_variables()} with {m} routes"
     if n == 0:
         return None
-    A, b, Q, r = p.get_constraint_data()
-    c, Qo = p.get_objective_data()
+    try:
+        A, b, Q, r = p.get_constraint_data()
+        c, Qo = p.get_objective_data()
+    except Exception as e:  # noqa: the exact-cover data must exist for every pool (also an empty one)
+        return f"constraint / objective data raised {type(e).__name__} with {n} nodes and {m} stored routes"
     if tuple(A.shape) != (n - 1, m):
         return f"cover matrix shape {A.shape}, expected {(n - 1, m)}"
     Ad = dense(A)
@@ -248,7 +251,10 @@ def cover_problem(p, added_costs):
         return f"quadratic constraint not empty: shape {Q.shape} nnz {Q.nnz} r {r}"
     if to_int_list(c) != added_costs or tuple(Qo.shape) != (m, m) or Qo.nnz != 0:
         return f"objective data {list(c)}, Q shape {Qo.shape} nnz {Qo.nnz}"
-    c2, A2, b2 = p.get_math_program_data()
+    try:
+        c2, A2, b2 = p.get_math_program_data()
+    except Exception as e:  # noqa
+        return f"get_math_program_data raised {type(e).__name__}"
     if to_int_list(c2) != added_costs or dense(A2) != Ad or to_int_list(b2) != [1] * (n - 1):
         return "get_math_program_data differs from get_constraint_data"
     x = [1] * m
